@@ -70,7 +70,17 @@ class Pipeline:
         """runs the pristine assemble() on the concretised inputs in a scratch tree.
         returns ('ok', bytes, labels, constants, chunks) or ('exc', TypeName, message, line)"""
         cm = {k: core.concrete(v, model) for k, v in (markers or {}).items()}
-        text = asmshim.MARK.sub(lambda m: str(cm[m.group(1)]) if m.group(1) in cm else m.group(0), src)
+
+        def spell(name):
+            # a marker is 'some spelling of the integer': use different documented spellings for
+            # different operands so that equal values are not accidentally equal strings
+            v = cm[name]
+            if name == 'RB':
+                return hex(v)
+            if name == 'RC':
+                return bin(v)
+            return str(v)
+        text = asmshim.MARK.sub(lambda m: spell(m.group(1)) if m.group(1) in cm else m.group(0), src)
         cc = {k: core.concrete(v, model) for k, v in (constants or {}).items()}
         root = tempfile.mkdtemp(prefix='bbverif_')
         old = os.getcwd()
@@ -382,7 +392,31 @@ def regtable_task():
             res['validated'] += 1
             if not ok:
                 bad.append((s, pos, want.hex(), out.hex() if isinstance(out, bytes) else out))
-    res['samples'].append(dict(register_spellings=len(spellings), table_keys=len(got)))
+    # mixed spellings of one register in two operands, compression off and on: the compression
+    # criteria must see register numbers, not spellings
+    npairs = 0
+    for n in range(32):
+        sp = [str(n), 'x%d' % n, ABI[n], hex(n)] + (['fp'] if n == 8 else [])
+        for c in (False, True):
+            base = {}
+            for form in ('addi %s %s 1', 'add %s %s x9', 'slli %s %s 3', 'andi %s %s 5', 'lw %s 8(%s)'):
+                try:
+                    base[form] = bytes(real.assemble(form % ('x%d' % n, 'x%d' % n), compress=c))
+                except Exception as e:
+                    base[form] = repr(e)
+                for s1 in sp:
+                    for s2 in sp:
+                        try:
+                            out = bytes(real.assemble(form % (s1, s2), compress=c))
+                        except Exception as e:
+                            out = repr(e)
+                        npairs += 1
+                        ok = out == base[form]
+                        res.oblig(ok)
+                        if not ok and len(bad) < 40:
+                            bad.append(('%s (compress=%s)' % (form % (s1, s2), c), n, str(base[form]), str(out)))
+    res['validated'] += npairs
+    res['samples'].append(dict(register_spellings=len(spellings), table_keys=len(got), mixed_spelling_programs=npairs))
     for b in bad[:5]:
         path = common.write_replay('C01', 'regtable_%s' % str(b[0]), dict(kind='regtable', entry=list(map(str, b))))
         res['violations'].append(dict(harness='regtable', kind='register-spelling', entry=list(map(str, b)), replay=path))
